@@ -124,6 +124,39 @@ def judgeV (name : String) (a : D128) (b : Option D128) (k : Option Int) (r : D1
     if rs.any (· == none) then none else some (rs.any (· == some true))
   | _ => judge name a b k r
 
+/-- Number of decimal digits of a positive natural (0 for 0). -/
+def natDigitsCount (n : Nat) : Nat := if n == 0 then 0 else (Nat.toDigits 10 n).length
+
+/-- `r` is within two units in the 34th significant digit of the exact integer power `a ^ n`
+(`n` an integer, `a` non-zero; the exact power is the rational `num / den · 10^e`, computed with
+unbounded naturals). `none`: outside what this judge covers (zero base, huge exponent). -/
+def judgePowInt (a : D128) (n : Int) (r : D128R) : Option Bool :=
+  if a.coeff == 0 ∨ n.natAbs * natDigitsCount a.coeff > 40000 then none
+  else
+    match r with
+    | .fin d =>
+      if d.coeff == 0 then none else   -- underflow to zero: rounding at the bottom of the range, not judged here
+      -- exact value: sign · num/den · 10^e10
+      let k := n.natAbs
+      let p := a.coeff ^ k
+      let (num, den, e10) : Nat × Nat × Int := if n ≥ 0 then (p, 1, a.exp * k) else (1, p, -(a.exp * k))
+      let neg := a.neg && (k % 2 == 1)
+      -- about 45 significant digits of num/den: q = floor(num · 10^t / den)
+      let t : Nat := 45 + natDigitsCount den
+      let q := num * 10 ^ t / den
+      -- exact ≈ q · 10^(e10 - t); its leading digit has weight 10^(digits q - 1 + e10 - t)
+      let m : Int := (natDigitsCount q : Int) + e10 - t          -- exact ∈ [10^(m-1), 10^m)
+      let ulp : Int := m - 34                                      -- exponent of one unit in the 34th digit
+      if m - 1 < -6143 ∨ m - 1 > 6144 then none else               -- subnormal or beyond the range: fewer digits
+      -- compare d.coeff · 10^d.exp with q · 10^(e10 - t), scaled to a common exponent
+      let lo : Int := min (min d.exp (e10 - t)) ulp
+      let x : Nat := d.coeff * 10 ^ (d.exp - lo).toNat
+      let y : Nat := q * 10 ^ (e10 - (t : Int) - lo).toNat
+      let tol : Nat := 2 * 10 ^ (ulp - lo).toNat + 10 ^ (ulp - lo).toNat / 1000
+      let diff := if x ≥ y then x - y else y - x
+      some (decide (d.neg = neg ∨ d.coeff = 0) && decide (diff ≤ tol))
+    | _ => none
+
 def feelOp (name : String) (x : D128R) (y : Option D128R) (k : Option Int) : Option String :=
   match name, y, k with
   | "add", some y, _ => some (showR (FNum.add x y))
@@ -169,6 +202,13 @@ def handle (args : List Sexp) : String :=
       | some (r, f, s) => s!"(op {r} {f} {s})"
       | none => "(error unknown-op)"
     | none => "(error bad-operand)"
+  | [.atom "judgepow", a, n, r] =>
+    match dec? a, Sexp.int? n, decR? r with
+    | some a, some n, some r =>
+      match judgePowInt a n r with
+      | some v => s!"(judge {boolStr v})"
+      | none => "(judge na)"
+    | _, _, _ => "(error bad-operand)"
   | [.atom "judgev", .atom name, a, r] =>
     match dec? a, decR? r with
     | some a, some r =>
